@@ -141,11 +141,18 @@ PROPS = {
     },
     "C10": {
         "units": ["psl"], "kani_complete": [], "kani_bounded_quick": [], "kani_bounded_thorough": [],
+        "enumerations": [{"name": "psl-enumerate", "entry": "psl-enumerate", "arg": "$REPO/public-suffix/public_suffix_list.dat",
+                          "bound": "the 9777 rules of the shipped public_suffix_list.dat, each as it is, with its leading label removed / replaced "
+                                   "and extended by one to three labels (about 65 000 names); BOUNDED: an enumeration, not a proof",
+                          "text": "public_suffix / effective_tld_plus_one of the real crate equal the publicsuffix.org algorithm (longest rule, "
+                                  "wildcards, exceptions, implicit *) run on the parsed .dat"}],
         "design_ref": "DESIGN.md section 5 / C10 and section 0.4",
         "not_covered": [
-            "that the packed table (tld_list.rs) encodes exactly the rules of public_suffix_list.dat: the proof is relative "
+            "that the packed table (tld_list.rs) encodes exactly the rules of public_suffix_list.dat is NOT proved: the proof is relative "
             "to the rule trie the table represents (well-formedness and sortedness of the shipped table are checked by the "
-            "verified checker at run time); a regenerated table that is a different but well-formed, sorted trie is NOT detected",
+            "verified checker at run time). A bounded stand-in covers it: the enumeration psl-enumerate (bounded_checks) looks up "
+            "about 65 000 names derived from every rule of the shipped .dat with the real crate and compares with the publicsuffix.org "
+            "algorithm on the parsed list -- it finds a regenerated, truncated or bit-flipped table unless the damage is invisible on those names",
             "the rule-walk specification (`walk`) is the publicsuffix.org / x-net-publicsuffix trie walk written as a spec "
             "function, not the declarative 'longest matching rule' definition over a rule set",
         ],
